@@ -4,8 +4,9 @@ CONSTANTS
   OffsMod = 65536
   Atoms <- AtomsMsg
   MaxLen = 5
+  MaxAtoms = 99
   Cfgs <- CfgsMsg
   Junk = 34
   EmitOn = TRUE
-INVARIANTS ResumeEqFresh Stable OffsSane Emit
+INVARIANTS ResumeEqFresh StableM OffsSane Emit EmitTwo EmitByte
 CHECK_DEADLOCK FALSE
